@@ -4,6 +4,20 @@
 -/
 namespace Gen.C15
 
+def isExhaustiveFnLoop (cost budget : Rat) : List (Bool × Rat) → (Option Bool)
+  | [] => none
+  | x :: xs => (if ((!x.1) && (decide ((x.2 + cost) ≤ budget))) then (some false) else (isExhaustiveFnLoop cost budget xs))
+
+def isExhaustiveFn (cost budget : Rat) (xs : List (Bool × Rat)) : Bool :=
+  (fun r => (match r with | some v => v | none => true)) (isExhaustiveFnLoop cost budget xs)
+
+def maxCardFnLoop (budget : Rat) : Rat → Rat → List (Rat) → (Rat × Rat)
+  | acc, selected, [] => (acc, selected)
+  | acc, selected, x :: xs => (if (decide ((x + acc) > budget)) then (acc, selected) else (maxCardFnLoop budget ((x + acc)) ((selected + (1 : Rat))) xs))
+
+def maxCardFn (budget : Rat) (xs : List (Rat)) : Rat :=
+  (fun r => r.2) (maxCardFnLoop budget ((0 : Rat)) ((0 : Rat)) xs)
+
 def isFeasible (total budget : Rat) : Bool := (decide (total ≤ budget))
 
 def isTrivial (total budget : Rat) (noneFits : Bool) : Bool := ((decide (total ≤ budget)) || noneFits)
